@@ -144,6 +144,40 @@ def check_one(lams, lats, conv_d, qlams, qlats_, conv_q, tol, max_sites, pre, ct
                 if list(out.site.values) != list(range(len(got))):
                     raise Violation("site-index", "site coordinate %s" % out.site.values)
                 res["nearest"] = [int(round(g)) for g in got]
+            # documented options of nearest selection: missing="ignore" skips out-of-tolerance points, unique=True keeps the
+            # first of repeated stations, exact=True demands zero distance
+            if all(len(w) == 1 for w in want):
+                dmin = [min(pdist(lq, pq, ls, ps) for ls, ps in zip(lams, lats)) for lq, pq in zip(qlams, qlats_)]
+                keep = [w[0] for w, d in zip(want, dmin) if d <= tol]
+                uniq = []
+                for w in keep:
+                    if w not in uniq:
+                        uniq.append(w)
+                for kw, exp in ((dict(missing="ignore"), keep), (dict(missing="ignore", unique=True), uniq)):
+                    try:
+                        o2 = run_sel(ds, qlons, qlats_, "nearest", tol, pre=pre, **kw)
+                        g2 = [int(round(g)) for g in stations_of(o2)]
+                    except ValueError:
+                        g2 = []
+                    except Exception as e:  # noqa: BLE001
+                        raise Violation("nearest-options", "nearest(%s) raised %s(%s); stations %s (%s) query %s tol %r" % (kw, type(e).__name__, e, lams, conv_d, qlons, tol))
+                    if g2 != exp:
+                        raise Violation("nearest-options", "nearest(%s) returned stations %s, the nearest within tolerance are %s; stations %s (%s) query %s (%s) tol %r" % (kw, g2, exp, lams, conv_d, qlons, conv_q, tol))
+                    if exp:
+                        _check_lon_convention(o2, [lams[i] for i in exp], cq, cd, "nearest(%s)" % (kw,))
+                if not fail:
+                    raised = False
+                    try:
+                        run_sel(ds, qlons, qlats_, "nearest", tol, pre=pre, exact=True)
+                    except AssertionError:
+                        raised = True
+                    except Exception as e:  # noqa: BLE001
+                        raise Violation("nearest-options", "nearest(exact=True) raised %s(%s)" % (type(e).__name__, e))
+                    if max(dmin) > 1e-6 and not raised:
+                        raise Violation("nearest-exact", "exact=True accepted a query %r deg from its nearest station" % max(dmin))
+                    if max(dmin) == 0.0 and cq == cd and raised:
+                        raise Violation("nearest-exact", "exact=True rejected queries placed exactly on stations %s" % (lams,))
+                    ctx.label("exact:" + ("rejects" if raised else "accepts"))
     # ------------------------------------------------------------------ idw
     if "idw" in methods:
         out = None
